@@ -380,7 +380,73 @@ def extract_all():
                 schemes=extract_schemes(), consts=extract_consts())
 
 
+def fingerprints():
+    """qualified function name -> hash of its AST (docstrings and comments ignored), for every function in maflib/*.py
+    and every schema file.  Used only to direct the search: a changed function makes the checks anchored in its file
+    generate more cases (runner.source_changes); it is never a verdict."""
+    import hashlib
+    fps = {}
+
+    def visit(node, prefix, rel):
+        for ch in ast.iter_child_nodes(node):
+            if isinstance(ch, (ast.FunctionDef, ast.AsyncFunctionDef)):
+                body = list(ch.body)
+                if body and isinstance(body[0], ast.Expr) and isinstance(getattr(body[0], "value", None), ast.Constant) \
+                        and isinstance(body[0].value.value, str):
+                    body = body[1:]
+                dump = ast.dump(ast.Module(body=body, type_ignores=[])) + ast.dump(ch.args) + \
+                    "".join(ast.dump(x) for x in ch.decorator_list)
+                fps["%s:%s%s" % (rel, prefix, ch.name)] = hashlib.sha1(dump.encode()).hexdigest()[:12]
+                visit(ch, prefix + ch.name + ".", rel)
+            elif isinstance(ch, ast.ClassDef):
+                fps["%s:%s%s(bases)" % (rel, prefix, ch.name)] = hashlib.sha1(
+                    "".join(ast.dump(b) for b in ch.bases).encode()).hexdigest()[:12]
+                visit(ch, prefix + ch.name + ".", rel)
+            elif not isinstance(ch, (ast.Import, ast.ImportFrom)) and prefix == "":
+                # module-level statements
+                key = "%s:<module>" % rel
+                fps[key] = hashlib.sha1((fps.get(key, "") + ast.dump(ch)).encode()).hexdigest()[:12]
+
+    for path in sorted(glob.glob(os.path.join(REPO, "maflib", "*.py"))):
+        rel = "maflib/" + os.path.basename(path)
+        try:
+            import warnings
+            with open(path) as h, warnings.catch_warnings():
+                warnings.simplefilter("ignore")
+                visit(ast.parse(h.read()), "", rel)
+        except SyntaxError:
+            fps[rel + ":<syntax-error>"] = "x"
+    for path in sorted(glob.glob(os.path.join(REPO, "maflib", "schemas", "*json"))):
+        with open(path, "rb") as h:
+            fps["maflib/schemas/" + os.path.basename(path)] = hashlib.sha1(h.read()).hexdigest()[:12]
+    return fps
+
+
+BASELINE = os.path.join(os.path.dirname(os.path.abspath(__file__)), "fingerprints_baseline.json")
+
+
+def source_changes():
+    """Functions whose AST differs from the baseline recorded for the tree the model was last validated against."""
+    try:
+        with open(BASELINE) as h:
+            b = json.load(h)
+        if b.get("python") != list(sys.version_info[:2]):      # ast.dump differs between Python versions
+            return None
+        base = b["functions"]
+    except (OSError, ValueError, KeyError):
+        return None
+    now = fingerprints()
+    return sorted(k for k in set(base) | set(now) if base.get(k) != now.get(k))
+
+
 def main():
+    if "--baseline" in sys.argv:
+        import subprocess
+        head = subprocess.run(["git", "-C", REPO, "rev-parse", "--short", "HEAD"], stdout=subprocess.PIPE, text=True).stdout.strip()
+        with open(BASELINE, "w") as h:
+            json.dump({"repo_head": head, "python": list(sys.version_info[:2]), "functions": fingerprints()}, h, indent=0, sort_keys=True)
+        print("baseline written for %s" % head)
+        return None
     os.makedirs(OUT, exist_ok=True)
     d = extract_all()
     changed = []
